@@ -630,9 +630,9 @@ matrix_row!("Bound<i64>", EBound, false, [MVecBnd MDqBnd MLlBnd MArrBnd MBoxBnd 
 matrix_row!("IpAddr", EIpAddr, false, [MVecIp MDqIp MLlIp MArrIp MBoxIp MTupIp MMapIp MResIp MBndIp], opt = MOptIp);
 matrix_row!("bool", EBool, true, [MVecBool MDqBool MLlBool MArrBool MBoxBool MTupBool MMapBool MResBool MBndBool], opt = MOptBool);
 
-/// Invoke `$mac!(EntryType)` for every registry entry, collecting the results in a `Vec`.
+/// Invoke `$mac!(EntryType)` for every hand-written registry entry, collecting the results in a `Vec`.
 #[macro_export]
-macro_rules! for_each_entry {
+macro_rules! for_each_core_entry {
     ($mac:ident) => {{
         use $crate::registry::*;
         vec![
@@ -652,8 +652,31 @@ macro_rules! for_each_entry {
             $mac!(EBTreeMapU8U8), $mac!(EBTreeMapStrVec), $mac!(EHashMapU32Str), $mac!(EHashMapStrOptBool),
             $mac!(ERange), $mac!(ERangeFrom), $mac!(ERangeTo), $mac!(ERangeToIncl), $mac!(ERangeIncl), $mac!(EBound),
             $mac!(EDuration), $mac!(ESystemTime), $mac!(EIpAddr), $mac!(EIpv4), $mac!(EIpv6), $mac!(ESockAddr), $mac!(ESockAddrV4), $mac!(ESockAddrV6),
-            $mac!(MVecTok), $mac!(MDqTok), $mac!(MLlTok), $mac!(MArrTok), $mac!(MBoxTok), $mac!(MTupTok), $mac!(MMapTok), $mac!(MResTok), $mac!(MBndTok), $mac!(MVecOptU8), $mac!(MDqOptU8), $mac!(MLlOptU8), $mac!(MArrOptU8), $mac!(MBoxOptU8), $mac!(MTupOptU8), $mac!(MMapOptU8), $mac!(MResOptU8), $mac!(MBndOptU8), $mac!(MVecUnit2), $mac!(MDqUnit2), $mac!(MLlUnit2), $mac!(MArrUnit), $mac!(MBoxUnit), $mac!(MTupUnit), $mac!(MMapUnit), $mac!(MResUnit), $mac!(MBndUnit), $mac!(MOptUnit), $mac!(MVecTag), $mac!(MDqTag), $mac!(MLlTag), $mac!(MArrTag), $mac!(MBoxTag), $mac!(MTupTag), $mac!(MMapTag), $mac!(MResTag), $mac!(MBndTag), $mac!(MOptTag), $mac!(MVecTgd), $mac!(MDqTgd), $mac!(MLlTgd), $mac!(MArrTgd), $mac!(MBoxTgd), $mac!(MTupTgd), $mac!(MMapTgd), $mac!(MResTgd), $mac!(MBndTgd), $mac!(MOptTgd), $mac!(MVecBv), $mac!(MDqBv), $mac!(MLlBv), $mac!(MArrBv), $mac!(MBoxBv), $mac!(MTupBv), $mac!(MMapBv), $mac!(MResBv), $mac!(MBndBv), $mac!(MOptBv), $mac!(MVecBs), $mac!(MDqBs), $mac!(MLlBs), $mac!(MArrBs), $mac!(MBoxBs), $mac!(MTupBs), $mac!(MMapBs), $mac!(MResBs), $mac!(MBndBs), $mac!(MOptBs), $mac!(MVecRs), $mac!(MDqRs), $mac!(MLlRs), $mac!(MArrRs), $mac!(MBoxRs), $mac!(MTupRs), $mac!(MMapRs), $mac!(MResRs), $mac!(MBndRs), $mac!(MVecCow), $mac!(MDqCow), $mac!(MLlCow), $mac!(MArrCow), $mac!(MBoxCow), $mac!(MTupCow), $mac!(MMapCow), $mac!(MResCow), $mac!(MBndCow), $mac!(MOptCow), $mac!(MVecF), $mac!(MDqF), $mac!(MLlF), $mac!(MArrF), $mac!(MBoxF), $mac!(MTupF), $mac!(MMapF), $mac!(MResF), $mac!(MBndF), $mac!(MOptF), $mac!(MVecInt), $mac!(MDqInt), $mac!(MLlInt), $mac!(MArrInt), $mac!(MBoxInt), $mac!(MTupInt), $mac!(MMapInt), $mac!(MResInt), $mac!(MBndInt), $mac!(MOptInt), $mac!(MVecVec), $mac!(MDqVec), $mac!(MLlVec), $mac!(MArrVec), $mac!(MBoxVec), $mac!(MTupVec), $mac!(MMapVec), $mac!(MResVec), $mac!(MBndVec), $mac!(MOptVec), $mac!(MVecTup), $mac!(MDqTup), $mac!(MLlTup), $mac!(MArrTup), $mac!(MBoxTup), $mac!(MTupTup), $mac!(MMapTup), $mac!(MResTup), $mac!(MBndTup), $mac!(MOptTup), $mac!(MVecBnd), $mac!(MDqBnd), $mac!(MLlBnd), $mac!(MArrBnd), $mac!(MBoxBnd), $mac!(MTupBnd), $mac!(MMapBnd), $mac!(MResBnd), $mac!(MBndBnd), $mac!(MOptBnd), $mac!(MVecIp), $mac!(MDqIp), $mac!(MLlIp), $mac!(MArrIp), $mac!(MBoxIp), $mac!(MTupIp), $mac!(MMapIp), $mac!(MResIp), $mac!(MBndIp), $mac!(MOptIp), $mac!(MVecBool), $mac!(MDqBool), $mac!(MLlBool), $mac!(MArrBool), $mac!(MBoxBool), $mac!(MTupBool), $mac!(MMapBool), $mac!(MResBool), $mac!(MBndBool), $mac!(MOptBool),
             $mac!(EInt), $mac!(ETag), $mac!(ETok), $mac!(EOptTok), $mac!(ETaggedOptU8), $mac!(ETaggedOptStr), $mac!(ETagged0Str), $mac!(ETagged55799), $mac!(ETagged24Bytes), $mac!(ETaggedBigU8), $mac!(ETaggedMaxVec),
         ]
+    }}
+}
+
+/// The container x element matrix (see above).
+#[macro_export]
+macro_rules! for_each_matrix_entry {
+    ($mac:ident) => {{
+        use $crate::registry::*;
+        vec![
+            $mac!(MVecTok), $mac!(MDqTok), $mac!(MLlTok), $mac!(MArrTok), $mac!(MBoxTok), $mac!(MTupTok), $mac!(MMapTok), $mac!(MResTok), $mac!(MBndTok), $mac!(MVecOptU8), $mac!(MDqOptU8), $mac!(MLlOptU8), $mac!(MArrOptU8), $mac!(MBoxOptU8), $mac!(MTupOptU8), $mac!(MMapOptU8), $mac!(MResOptU8), $mac!(MBndOptU8), $mac!(MVecUnit2), $mac!(MDqUnit2), $mac!(MLlUnit2), $mac!(MArrUnit), $mac!(MBoxUnit), $mac!(MTupUnit), $mac!(MMapUnit), $mac!(MResUnit), $mac!(MBndUnit), $mac!(MOptUnit), $mac!(MVecTag), $mac!(MDqTag), $mac!(MLlTag), $mac!(MArrTag), $mac!(MBoxTag), $mac!(MTupTag), $mac!(MMapTag), $mac!(MResTag), $mac!(MBndTag), $mac!(MOptTag), $mac!(MVecTgd), $mac!(MDqTgd), $mac!(MLlTgd), $mac!(MArrTgd), $mac!(MBoxTgd), $mac!(MTupTgd), $mac!(MMapTgd), $mac!(MResTgd), $mac!(MBndTgd), $mac!(MOptTgd), $mac!(MVecBv), $mac!(MDqBv), $mac!(MLlBv), $mac!(MArrBv), $mac!(MBoxBv), $mac!(MTupBv), $mac!(MMapBv), $mac!(MResBv), $mac!(MBndBv), $mac!(MOptBv), $mac!(MVecBs), $mac!(MDqBs), $mac!(MLlBs), $mac!(MArrBs), $mac!(MBoxBs), $mac!(MTupBs), $mac!(MMapBs), $mac!(MResBs), $mac!(MBndBs), $mac!(MOptBs), $mac!(MVecRs), $mac!(MDqRs), $mac!(MLlRs), $mac!(MArrRs), $mac!(MBoxRs), $mac!(MTupRs), $mac!(MMapRs), $mac!(MResRs), $mac!(MBndRs), $mac!(MVecCow), $mac!(MDqCow), $mac!(MLlCow), $mac!(MArrCow), $mac!(MBoxCow), $mac!(MTupCow), $mac!(MMapCow), $mac!(MResCow), $mac!(MBndCow), $mac!(MOptCow), $mac!(MVecF), $mac!(MDqF), $mac!(MLlF), $mac!(MArrF), $mac!(MBoxF), $mac!(MTupF), $mac!(MMapF), $mac!(MResF), $mac!(MBndF), $mac!(MOptF), $mac!(MVecInt), $mac!(MDqInt), $mac!(MLlInt), $mac!(MArrInt), $mac!(MBoxInt), $mac!(MTupInt), $mac!(MMapInt), $mac!(MResInt), $mac!(MBndInt), $mac!(MOptInt), $mac!(MVecVec), $mac!(MDqVec), $mac!(MLlVec), $mac!(MArrVec), $mac!(MBoxVec), $mac!(MTupVec), $mac!(MMapVec), $mac!(MResVec), $mac!(MBndVec), $mac!(MOptVec), $mac!(MVecTup), $mac!(MDqTup), $mac!(MLlTup), $mac!(MArrTup), $mac!(MBoxTup), $mac!(MTupTup), $mac!(MMapTup), $mac!(MResTup), $mac!(MBndTup), $mac!(MOptTup), $mac!(MVecBnd), $mac!(MDqBnd), $mac!(MLlBnd), $mac!(MArrBnd), $mac!(MBoxBnd), $mac!(MTupBnd), $mac!(MMapBnd), $mac!(MResBnd), $mac!(MBndBnd), $mac!(MOptBnd), $mac!(MVecIp), $mac!(MDqIp), $mac!(MLlIp), $mac!(MArrIp), $mac!(MBoxIp), $mac!(MTupIp), $mac!(MMapIp), $mac!(MResIp), $mac!(MBndIp), $mac!(MOptIp), $mac!(MVecBool), $mac!(MDqBool), $mac!(MLlBool), $mac!(MArrBool), $mac!(MBoxBool), $mac!(MTupBool), $mac!(MMapBool), $mac!(MResBool), $mac!(MBndBool), $mac!(MOptBool),
+        ]
+    }}
+}
+
+/// Every registry entry: the hand-written ones and the matrix. Used by the checks whose clause depends on how a container
+/// treats its element's encoding (round trip, encoder bytes, typed decoding of re-framed encodings, totality); the other
+/// registry-driven checks use the hand-written entries (each generic check function is instantiated once per entry, and the
+/// build time of this crate is dominated by those instantiations).
+#[macro_export]
+macro_rules! for_each_entry {
+    ($mac:ident) => {{
+        let mut v = $crate::for_each_core_entry!($mac);
+        v.extend($crate::for_each_matrix_entry!($mac));
+        v
     }}
 }
